@@ -164,6 +164,10 @@ func suiteNode(c *Ctx) {
 	c.Class("scenario/newview-sweep-no-lock")
 	scenarioMinorityPreparedOverridden(c)
 	c.Class("scenario/minority-prepared-overridden")
+	scenarioHeavyLaggard(c)
+	c.Class("scenario/heavy-laggard")
+	scenarioSyncWithoutProof(c)
+	c.Class("scenario/sync-without-proof")
 }
 
 // schemeFor: every fifth scenario uses long ids with a common three-byte prefix, every seventh ids
@@ -396,6 +400,11 @@ func scenarioTwoLocks(c *Ctx) *Net {
 	votes2 = append(votes2, a.vcContent(memberId(2), protocol.LEAN_HELIX_VIEW_CHANGE, inst, 1, 2, proofX))
 	pp2 := a.ppContent(memberId(2), protocol.LEAN_HELIX_PREPREPARE, inst, 1, 2, blockHash(blkX))
 	a.toAll(a.mkNV(memberId(2), protocol.LEAN_HELIX_NEW_VIEW, inst, 1, 2, votes2, pp2, blkX), "nv-lower-lock-listed-last")
+	// and the same votes (the proof of view 1 listed before the proof of view 0) with the proposal they demand: the block certified in view 1
+	if _, blkY := a.genuineProof(1, 1); blkY != nil {
+		ppY := a.ppContent(memberId(2), protocol.LEAN_HELIX_PREPREPARE, inst, 1, 2, blockHash(blkY))
+		a.toAll(a.mkNV(memberId(2), protocol.LEAN_HELIX_NEW_VIEW, inst, 1, 2, votes2, ppY, blkY), "nv-by-the-book-mixed-proofs")
+	}
 	return net
 }
 
